@@ -249,9 +249,19 @@ func (r *runtimeState) reschedule(t *thread, exiting bool) {
 			list = append(list, t)
 		}
 		nfg := len(list)
-		for _, u := range r.threads {
-			if u != t && !u.bg && r.enabled(u) {
-				list = append(list, u)
+		if NewestFirst {
+			// alternative default order: the most recently created foreground thread first (the
+			// default schedule then follows a spawn chain to its end before older threads resume)
+			for i := len(r.threads) - 1; i >= 0; i-- {
+				if u := r.threads[i]; u != t && !u.bg && r.enabled(u) {
+					list = append(list, u)
+				}
+			}
+		} else {
+			for _, u := range r.threads {
+				if u != t && !u.bg && r.enabled(u) {
+					list = append(list, u)
+				}
 			}
 		}
 		nfg = len(list) - nfg
@@ -642,6 +652,10 @@ func NameThread(n string) {
 }
 
 // RunOptions configure one execution.
+// NewestFirst selects the alternative canonical order of enabled foreground threads (descending
+// creation order instead of ascending). Set once per process by the CLI from Variant.LIFO.
+var NewestFirst bool
+
 type RunOptions struct {
 	FreeCost   uint8 // cost of a non-default pick when the running thread is not enabled (0: CHESS preemption bounding; 1: delay bounding)
 	Trace      bool
